@@ -137,5 +137,53 @@ pub open spec fn v3l_plain(token: Seq<char>, k: Seq<u8>) -> Seq<u8> {
     let n = d.subrange(0, 32);
     aes256_ctr_xor(v3l_ek(k, n), v3l_n2(k, n), d.subrange(32, d.len() - 48))
 }
+
+// ---- v1.local ----------------------------------------------------------------------------------
+pub open spec fn v1l_header() -> Seq<u8> { "v1.local.".spec_bytes() }
+// GetNonce(m, n) = HMAC-SHA384(key = n, m)[0..32]
+pub open spec fn v1l_nonce(rnd: Seq<u8>, m: Seq<u8>) -> Seq<u8> { hmac_sha384(rnd, m).subrange(0, 32) }
+pub open spec fn v1l_ek(k: Seq<u8>, n: Seq<u8>) -> Seq<u8> { hkdf_sha384(n.subrange(0, 16), k, sep_ek(), 32) }
+pub open spec fn v1l_ak(k: Seq<u8>, n: Seq<u8>) -> Seq<u8> { hkdf_sha384(n.subrange(0, 16), k, sep_ak(), 32) }
+pub open spec fn v1l_c(k: Seq<u8>, n: Seq<u8>, m: Seq<u8>) -> Seq<u8> { aes256_ctr_xor(v1l_ek(k, n), n.subrange(16, 32), m) }
+pub open spec fn v1l_pre(n: Seq<u8>, c: Seq<u8>, f: Seq<u8>) -> Seq<u8> { pae(seq![v1l_header(), n, c, f]) }
+pub open spec fn v1l_tag(k: Seq<u8>, n: Seq<u8>, c: Seq<u8>, f: Seq<u8>) -> Seq<u8> { hmac_sha384(v1l_ak(k, n), v1l_pre(n, c, f)) }
+pub open spec fn v1l_payload(k: Seq<u8>, n: Seq<u8>, m: Seq<u8>, f: Seq<u8>) -> Seq<u8> {
+    n + v1l_c(k, n, m) + v1l_tag(k, n, v1l_c(k, n, m), f)
+}
+// token for random bytes `rnd` (the builder-side nonce argument)
+pub open spec fn v1l_token(k: Seq<u8>, rnd: Seq<u8>, m: Seq<u8>, f: Seq<u8>) -> Seq<char> {
+    token_text("v1.local."@, v1l_payload(k, v1l_nonce(rnd, m), m, f), f)
+}
+pub open spec fn v1l_accept_cond(token: Seq<char>, k: Seq<u8>, f: Seq<u8>) -> bool {
+    &&& token_parts_ok(token, "v1.local."@, f)
+    &&& token_payload(token).len() >= 80
+    &&& ({ let d = token_payload(token);
+           d.subrange(d.len() - 48, d.len() as int) == v1l_tag(k, d.subrange(0, 32), d.subrange(32, d.len() - 48), f) })
+}
+pub open spec fn v1l_plain(token: Seq<char>, k: Seq<u8>) -> Seq<u8> {
+    let d = token_payload(token);
+    let n = d.subrange(0, 32);
+    aes256_ctr_xor(v1l_ek(k, n), n.subrange(16, 32), d.subrange(32, d.len() - 48))
+}
+// ---- v2.local ----------------------------------------------------------------------------------
+pub open spec fn v2l_header() -> Seq<u8> { "v2.local.".spec_bytes() }
+pub open spec fn v2l_nonce(rnd: Seq<u8>, m: Seq<u8>) -> Seq<u8> { blake2b_mac(rnd, 24, m) }
+pub open spec fn v2l_pre(n: Seq<u8>, f: Seq<u8>) -> Seq<u8> { pae(seq![v2l_header(), n, f]) }
+pub open spec fn v2l_payload(k: Seq<u8>, n: Seq<u8>, m: Seq<u8>, f: Seq<u8>) -> Seq<u8> {
+    n + xchacha20poly1305_seal(k, n, v2l_pre(n, f), m)
+}
+pub open spec fn v2l_token(k: Seq<u8>, rnd: Seq<u8>, m: Seq<u8>, f: Seq<u8>) -> Seq<char> {
+    token_text("v2.local."@, v2l_payload(k, v2l_nonce(rnd, m), m, f), f)
+}
+pub open spec fn v2l_open(token: Seq<char>, k: Seq<u8>, f: Seq<u8>) -> Option<Seq<u8>> {
+    let d = token_payload(token);
+    xchacha20poly1305_open(k, d.subrange(0, 24), v2l_pre(d.subrange(0, 24), f), d.subrange(24, d.len() as int))
+}
+pub open spec fn v2l_accept_cond(token: Seq<char>, k: Seq<u8>, f: Seq<u8>) -> bool {
+    &&& token_parts_ok(token, "v2.local."@, f)
+    &&& token_payload(token).len() >= 24
+    &&& v2l_open(token, k, f) is Some
+}
+pub open spec fn v2l_plain(token: Seq<char>, k: Seq<u8>, f: Seq<u8>) -> Seq<u8> { v2l_open(token, k, f)->Some_0 }
 }
 }
